@@ -62,6 +62,15 @@ def check_a(ck, repo):
             n += check_retpair(ck, "C04.a", repo, fi)
             n += check_tuple_scatter(ck, "C04.a", repo, fi)
             n += check_coindex(ck, "C04.a", repo, fi, methods={"decision_path", "predict_proba", "predict", "decision_function"})
+    # every normal exit of the piecewise dispatcher returns the scattered array: a shortcut for
+    # batches that fall into one bucket would make a row's output depend on its batch
+    try:
+        ap = repo.cls("mlinsights.mlmodel.piecewise_estimator", "PiecewiseEstimator").methods["_apply_predict_method"]
+        rets = [src_of(r.value) for r in own_nodes(ap.node) if isinstance(r, ast.Return)]
+        n += 1
+        ck.verdict(rets == ["pred"], "C04.a", ap, f"returns {rets}", "single exit returning the scattered predictions (same path for every batch composition)", f"_apply_predict_method returns {rets}: batches of a particular composition take a different path (no scatter, no fallback for unseen buckets), so a row's output depends on which other rows are in the batch")
+    except KeyError:
+        pass
     return n
 
 
@@ -254,6 +263,7 @@ WITNESSES = [
     {"name": "piecewise-return-other-mask", "file": _PE, "rule": "C04.a", "old": "    return ind, est.predict(X[ind, :])\n", "new": "    ind2 = association >= i\n    return ind, est.predict(X[ind2, :])\n"},
     {"name": "piecewise-fallback-mask-changed", "file": _PE, "rule": "C04.a", "old": "        indall = numpy.logical_not(indall)\n        Xmissed = X[indall]\n", "new": "        Xmissed = X[indall]\n        indall = numpy.logical_not(indall)\n"},
     {"name": "piecewise-scatter-swapped-pair", "file": _PE, "rule": "C04.a", "old": "            pred[ind] = p\n", "new": "            pred[p] = ind\n"},
+    {"name": "dtlr-break-skips-other-side", "file": _DT, "rule": "C04.a", "old": "        if self.above is not None and n_above > 0:\n            prob_above = self.above.predict_proba(X[above])\n            prob[above] = prob_above\n        if self.below is not None and n_below > 0:\n            prob_below = self.below.predict_proba(X[below])\n            prob[below] = prob_below\n", "new": "        for child, side in ((self.above, above), (self.below, below)):\n            if child is None or not side.any():\n                break\n            prob[side] = child.predict_proba(X[side])\n"},
     {"name": "piecewise-predict-stores-state", "file": _PE, "rule": "C04.b", "old": "        association = self.transform_bins(X)\n\n        indpred", "new": "        association = self.transform_bins(X)\n        self.last_association_ = association\n\n        indpred"},
     {"name": "interval-predict-global-rng", "file": "mlinsights/mlmodel/interval_regressor.py", "rule": "C04.b", "old": "        preds = self.predict_all(X)\n        return preds.mean(axis=1)\n", "new": "        preds = self.predict_all(X)\n        preds = preds[:, numpy.random.permutation(preds.shape[1])]\n        return preds.mean(axis=1)\n"},
     {"name": "kmeansl1-predict-caches", "file": "mlinsights/mlmodel/kmeans_l1.py", "rule": "C04.b", "old": "        labels = labels.astype(numpy.int32, copy=False)\n", "new": "        labels = labels.astype(numpy.int32, copy=False)\n        self.last_labels_ = labels\n"},
@@ -262,6 +272,7 @@ WITNESSES = [
     {"name": "criterion-no-getstate", "file": _CY, "rule": "C04.d", "old": "    def __getstate__(self):", "new": "    def _getstate_disabled(self):"},
 ]
 TWINS = [
+    {"name": "dtlr-loop-over-sides-continue", "file": _DT, "old": "        if self.above is not None and n_above > 0:\n            prob_above = self.above.predict_proba(X[above])\n            prob[above] = prob_above\n        if self.below is not None and n_below > 0:\n            prob_below = self.below.predict_proba(X[below])\n            prob[below] = prob_below\n", "new": "        for child, side in ((self.above, above), (self.below, below)):\n            if child is None or not side.any():\n                continue\n            prob[side] = child.predict_proba(X[side])\n"},
     {"name": "dtlr-local-mask-alias-free", "file": _DT, "old": "            prob_above = self.above.predict_proba(X[above])\n            prob[above] = prob_above\n", "new": "            prob[above] = self.above.predict_proba(X[above])\n"},
     {"name": "piecewise-return-parenthesised", "file": _PE, "old": "    return ind, est.predict(X[ind, :])\n", "new": "    Xi = X[ind, :]\n    return (ind, est.predict(Xi))\n"},
     {"name": "piecewise-fallback-renamed", "file": _PE, "old": "        Xmissed = X[indall]\n        if Xmissed.shape[0] > 0:\n            meth = getattr(self.mean_estimator_, method)\n            missed = meth(Xmissed)\n            pred[indall] = missed\n", "new": "        Xrest = X[indall]\n        if Xrest.shape[0] > 0:\n            meth = getattr(self.mean_estimator_, method)\n            pred[indall] = meth(Xrest)\n"},
